@@ -43,7 +43,7 @@ func (l *launcher) gozeroRecovers() bool {
 func recoverVerif(m *mon) {
 	if p := recover(); p != nil {
 		if _, ok := p.(verifPanic); !ok {
-			m.viol("harness/unexpected-panic", fmt.Sprint(p), map[string]any{"stack": stacks()})
+			m.viol("harness/unexpected-panic", fmt.Sprint(p), map[string]any{"stack": stacksBrief()})
 		}
 	}
 }
